@@ -16,6 +16,7 @@ type valueRec struct {
 	hasRel   bool
 	relCount int  // real invocations of the release func
 	expected bool // the model says it must have been released by now
+	stored   bool // the result was stored in the container (not a stale result)
 	err      error
 }
 
@@ -147,6 +148,7 @@ func (m *rcModel) Apply(c *mCall, v *valueRec) {
 		return
 	}
 	m.resolved = true
+	v.stored = true
 	m.val, m.err = v.id, v.err
 	if v.hasRel {
 		m.cur = v
